@@ -419,10 +419,11 @@ func (e *Engine) vrtIntrinsic(fn *ssa.Function, vn string, args []Value, st *Sta
 		}
 		return total, true
 	case "ConfigFile":
-		// the environment holds one configuration file: unreadable, unparsable, or listing one type
+		// the environment holds one configuration file: unreadable, unparsable, listing one type, with an
+		// explicit empty list (`types: []`), or without a `types` key
 		p := e.freshStr(st, "cfgpath", 6)
 		st.assumes = And(st.assumes, Not(Eq(p, StrC(""))), sEach(p, func(c *Term) *Term { return byteRange(c, 33, 126) }))
-		e.cfgFile = &cfgFileEnv{Path: p, ReadErr: args[0].(*Term), YamlErr: args[1].(*Term), Typ: args[2].(*Term)}
+		e.cfgFile = &cfgFileEnv{Path: p, ReadErr: args[0].(*Term), YamlErr: args[1].(*Term), Empty: args[2].(*Term), Typ: args[3].(*Term)}
 		return p, true
 	case "Generator":
 		// vrtGenerator() *generator.Generator: an opaque non-nil generator over the fixed universe
@@ -525,6 +526,7 @@ func mapEntries(st *State, m *MapV) []MEnt {
 type cfgFileEnv struct {
 	Path             *Term
 	ReadErr, YamlErr *Term
+	Empty            *Term // the file says `types: []`: an allocated map without entries
 	Typ              *Term
 }
 
